@@ -2,6 +2,14 @@ module verif
 
 go 1.25.0
 
-require github.com/mna/pigeon v0.0.0
+require (
+	github.com/mna/pigeon v0.0.0
+	golang.org/x/tools v0.45.0
+)
+
+require (
+	golang.org/x/mod v0.36.0 // indirect
+	golang.org/x/sync v0.20.0 // indirect
+)
 
 replace github.com/mna/pigeon => /repo
